@@ -5,7 +5,31 @@ import os
 HERE = os.path.dirname(os.path.dirname(os.path.abspath(__file__)))
 
 CLAIMED = {
-    "C20": dict(
+    "C14": dict(
+        level="exploration", design="DESIGN.md 3/C14",
+        text=("Seeded operation histories on a real KeyedSet against the reference model 'ordered mapping key -> most recently "
+              "added item', over 8 item universes (self-keyed str/int, tuples and unhashable lists with an explicit key function, "
+              "keyed spec items; untyped and KeyedSet[T, K]) x enforce_item_equivalence on/off: add / discard / remove / pop / "
+              "clear / membership / lookup with item-or-key arguments (existing item, existing key, equal copy, same key other "
+              "payload, fresh, missing), |, &, -, ^, <=, <, >=, >, ==, !=, isdisjoint and |=, &=, -=, ^= against KeyedSet and "
+              "built-in set operands, compared on keys; key-function fault injection at every invocation index."),
+        note=("Trusted: the reference mapping model in specsim/props/c14.py. Where the statement does not pin the semantics "
+              "(unequal items under a shared key against a built-in set operand, == with unequal payloads, collisions under "
+              "enforcement inside bulk operators) the check only requires coherence, never a particular result."),
+        technique="deterministic simulation: seeded operation histories vs executable reference model, key-function fault injection",
+    ),    "C13": dict(
+        level="exploration", design="DESIGN.md 3/C13",
+        text=("Seeded operation histories on a real KeyedList against a plain-list reference model plus the key function, over 7 "
+              "item universes (self-keyed str/int, tuples with an explicit key function, keyed spec items; untyped and "
+              "KeyedList[T, K]); all MutableSequence operations of the property text and the dict-like ones, indices over "
+              "[-len-1, len+1], wrong item/key types, duplicate keys; where the universe has a key function every operation is "
+              "re-executed with an injected exception at each key-function invocation. After every execution all public reads "
+              "(iteration, len, keys, items, l[k], get, index_for_key, l[i]) must agree with the model, and with the previous "
+              "model state when the operation raised. The space of the property (exhaustive up to 4 items) is sampled, with the "
+              "reached (universe, op, length, index class, outcome) cells reported."),
+        note="Trusted: the reference list model in specsim/props/c13.py; membership is checked as item-or-key (pinned by the repo's tests).",
+        technique="deterministic simulation: seeded operation histories vs executable reference model, key-function fault injection",
+    ),    "C20": dict(
         level="fault_enumeration", design="DESIGN.md 3/C20",
         text=("Sequential part: seeded histories of copying operations (construction with mutable defaults, copy-on-write "
               "helpers, deepcopy of module-bearing values nested to depth 3, reset/del); probed operations are re-executed with an "
